@@ -799,11 +799,13 @@ func reaches(from, to, stop *ssa.BasicBlock) bool {
 
 // ---- R5 ---------------------------------------------------------------------
 
-func reflectResultRule(r *Run) {
+func reflectResultRule(r *Run) { reflectResultRuleAs(r, "R5") }
+
+func reflectResultRuleAs(r *Run, rule string) {
 	w := r.W
 	f := w.evalMethod("CallExpression")
 	if f == nil {
-		r.Lost("R5", "call evaluator")
+		r.Lost(rule, "call evaluator")
 		return
 	}
 	fn := w.SSAFunc(f)
@@ -818,7 +820,7 @@ func reflectResultRule(r *Run) {
 		}
 	}
 	if call == nil {
-		r.Lost("R5", "reflect.Value.Call in the call evaluator")
+		r.Lost(rule, "reflect.Value.Call in the call evaluator")
 		return
 	}
 	// the comma-ok assertion to error whose operand derives from the call result
@@ -844,17 +846,17 @@ func reflectResultRule(r *Run) {
 			}
 			// the asserted operand must be the LAST result: index len(res)-1
 			if !lastIndexOf(ta.X, call) {
-				r.Bad("R5", f.Name(), "error taken from a result other than the last", w.Pos(ta.Pos()), "the trailing result is the error result")
+				r.Bad(rule, f.Name(), "error taken from a result other than the last", w.Pos(ta.Pos()), "the trailing result is the error result")
 			}
 		}
 	}
 	if okFalse == nil {
-		r.Bad("R5", f.Name(), "no error inspection of the reflect call result", w.Pos(call.Pos()), "a non-nil trailing error result of the helper must fail the render")
+		r.Bad(rule, f.Name(), "no error inspection of the reflect call result", w.Pos(call.Pos()), "a non-nil trailing error result of the helper must fail the render")
 		return
 	}
 	// ok-true side returns a non-nil error
 	if ret, ok := okTrue.Instrs[len(okTrue.Instrs)-1].(*ssa.Return); !ok || len(ret.Results) != 2 || isNilConst(retOperands(ret)[1]) {
-		r.Bad("R5", f.Name(), "error branch does not return the error", w.Pos(firstPos(okTrue)), "when the trailing result is a non-nil error the evaluator must return it (wrapped)")
+		r.Bad(rule, f.Name(), "error branch does not return the error", w.Pos(firstPos(okTrue)), "when the trailing result is a non-nil error the evaluator must return it (wrapped)")
 	}
 	// every use of res[0] must be dominated by the ok-false edge
 	bad := false
@@ -872,13 +874,13 @@ func reflectResultRule(r *Run) {
 			n++
 			if !(okFalse.Dominates(b) && len(okFalse.Preds) == 1) {
 				bad = true
-				r.Bad("R5", f.Name(), "res[0] used before the error result is inspected", w.Pos(ia.Pos()),
+				r.Bad(rule, f.Name(), "res[0] used before the error result is inspected", w.Pos(ia.Pos()),
 					"the first result of the helper is used on a path that has not yet tested the trailing error result")
 			}
 		}
 	}
 	if !bad && n > 0 {
-		r.Ok("R5", f.Name(), fmt.Sprintf("%d use(s) of res[0]", n), w.Pos(call.Pos()), "all dominated by the ok=false edge of the trailing-error test")
+		r.Ok(rule, f.Name(), fmt.Sprintf("%d use(s) of res[0]", n), w.Pos(call.Pos()), "all dominated by the ok=false edge of the trailing-error test")
 	}
 }
 
